@@ -6,8 +6,8 @@ VERIF = os.path.dirname(os.path.dirname(os.path.abspath(__file__)))
 
 CHECKS = {
  "C11": dict(
-    technique="TLA+ spec ParamMap.tla + EditIndices.tla model-checked by TLC; dumped state graph replayed into real Model objects (spec->code conformance)",
-    text="Exhaustive TLC model of the parameter map (every assignment of priors to sites, every add_tie subset, accepted and rejected) with 12 invariants/action properties; every behaviour of the state graph is replayed on real AlphaModel/ExactModel objects for 9-12 structural templates and the real model's projection (parameter count, unique names, value-to-site map read back through sentinel values by dict and by list, guesses, rebuild without shared state) must equal the specification state after every action.",
+    technique="TLA+ specs ParamMap.tla + EditIndices.tla + ModelSession.tla model-checked by TLC; dumped state graphs replayed into real Model objects (spec->code conformance); construction sequences compared with fresh-interpreter descriptions",
+    text="Exhaustive TLC model of the parameter map (every assignment of priors to sites, every add_tie subset, accepted and rejected) with 12 invariants/action properties; every behaviour of the state graph is replayed on real AlphaModel/ExactModel objects for 9-12 structural templates and the real model's projection (parameter count, unique names, value-to-site map read back through sentinel values by dict and by list, guesses, rebuild without shared state) must equal the specification state after every action. ModelSession.tla: every sequence of <= 2 (3) model constructions over a 6-entry catalogue (AlphaModel with a prior scaling, ExactModel, 11-parameter two-sphere model, RigidCluster model, per-channel scaling) runs in one interpreter and every model built must have the names, text form and value placement of the same entry built in a fresh interpreter; the 11-parameter model's value-to-place map is checked name by name.",
     note="Bounded: <=6 leaf sites, 3 prior objects in 2 equality classes, <=2 successive ties, 4 naming patterns. Trusts TLC, the dot-dump parser and the templates' observe() functions (public API plus Model._find_optics/_maps for optics and scaling).",
     ref="5 C11"),
 }
@@ -43,14 +43,14 @@ CHECKS["C14"] = dict(
     ref="5 C14")
 
 CHECKS["C12"] = dict(
-    technique="TLA+ spec Posterior.tla (staged control flow of lnposterior over abstract input classes) model-checked by TLC; every behaviour replayed on real models with an independent Gaussian log-density oracle on the public calc_holo",
+    technique="TLA+ spec Posterior.tla (staged control flow of lnposterior over abstract input classes incl. layered spheres; second evaluation with a fresh or an in-place re-used value container) model-checked by TLC; every behaviour replayed on real models with an independent Gaussian log-density oracle on the public calc_holo",
     text="TLC enumerates all 3456 combinations of input classes (values inside/outside support, valid/invalid scatterer, constraint none/ok/violated, model noise none/scalar/prior, data noise absent/None/scalar, all-uniform priors, medium_index on model/data/both/neither, pixel subset, AlphaModel fixed/prior scaling or ExactModel with a custom calc function) and checks: no forward calculation and -inf whenever the prior is -inf, noise and optics precedence model-then-data, unit noise only for all-uniform priors, the missing parameter is named. Each behaviour (900 sampled in quick, all in thorough) is replayed: outcome class, exact number of forward calculations, input data untouched, lnposterior = sum of lnprob + Gaussian log-density of the residuals to the public calc_holo at the applicable noise (1e-10), forward = calc_holo incl. scaling and random subsets (same RNG state), per-channel noise.",
     note="Forward calls are counted by wrapping holopy.inference.model.calc_holo in the harness process. One medium_index key stands for the optics keys (wavelength/polarization follow it).",
     ref="5 C12")
 
 CHECKS["C07"] = dict(
     technique="TLA+ spec DetectorViews.tla (exact lattice positions of every view of every small detector) model-checked by TLC and replayed with real theories; DetectorViewsTrace.tla validates recorded make_subset_data calls",
-    text="TLC enumerates every grid up to 3x3 (quick) / 4x4 (thorough) incl. 1xN, two spacings per axis, shifted origins, every crop window and three point-list orders with the exact position of every element of the view; each state is replayed with a real theory (Mie, layered Mie, Multisphere, T-matrix, MieLens in rotation): the hologram at a position must equal the full-grid value whatever the view (1e-12), positions and point order must match the spec, inputs untouched. Calls of make_subset_data (sizes 1..all, seeds incl. 0, shapes incl. 1x3) are recorded and validated by a TLC trace spec: distinct in-range indices, position = index rule, values/metadata/original axes kept, reproducible for a seed, commutes with calc_holo. A random sequence of calc_holo/calc_field/calc_intensity calls sharing one detector must leave it unmodified and repeat exactly.",
+    text="TLC enumerates every grid up to 3x3 (quick) / 4x4 (thorough) incl. 1xN, two spacings per axis, shifted origins, every crop window, three point-list orders and three point lists mixing two detector heights with the exact position of every element of the view; each state is replayed with a real theory (Mie, layered Mie, Multisphere, T-matrix, MieLens in rotation): the hologram at a position must equal the full-grid value whatever the view (1e-12), positions and point order must match the spec, inputs untouched. Calls of make_subset_data (sizes 1..all, seeds incl. 0, shapes incl. 1x3) are recorded and validated by a TLC trace spec: distinct in-range indices, position = index rule, values/metadata/original axes kept, reproducible for a seed, commutes with calc_holo. A random sequence of calc_holo/calc_field/calc_intensity calls sharing one detector must leave it unmodified and repeat exactly.",
     note="Point-detector results carry no x/y coordinates in HoloPy; they are matched to the input points by order. Continuous geometry concretised on a 0.1 lattice.",
     ref="5 C07")
 
@@ -68,7 +68,7 @@ CHECKS["C02"] = dict(
 
 CHECKS["C03"] = dict(
     technique="TLA+ spec CrossSections.tla (catalogue of configuration classes and the relations applicable to each) model-checked by TLC; public calc_cross_sections / calc_scat_matrix measured on every class and the recorded relation defects validated by CrossSectionsTrace.tla",
-    text="TLC enumerates 5 relative-index x 7 size (1e-3..400) x 3 medium x 3 layering x 4 polarisation classes with the applicable relations; for each class the harness measures ext = sca + abs, abs >= 0, abs = 0 for real index, sca > 0, |g| <= 1, the optical theorem against the forward amplitude from calc_scat_matrix, the solid-angle integrals of |S|^2 for sca and g (Gauss-Legendre, 4 x nstop nodes), the Rayleigh formula, the four numbers against an independent textbook series, and one-sphere Multisphere clusters (x- and y-polarised); a TLC trace spec asserts every relation with tolerances from spec/Tolerances.tla.",
+    text="TLC enumerates 5 relative-index x 7 size (1e-3..400) x 3 medium x 3 layering x 4 polarisation classes with the applicable relations; for each class the harness measures ext = sca + abs, abs >= 0, abs = 0 for real index, sca > 0, |g| <= 1, the optical theorem against the forward amplitude from calc_scat_matrix, the solid-angle integrals of |S|^2 for sca and g (Gauss-Legendre, 4 x nstop nodes), the Rayleigh formula, the four numbers against an independent textbook series, one-sphere Multisphere clusters (x- and y-polarised), and true clusters (pair, mixed trimer, absorbing pair) under polarisations along and oblique to the axes (ext = sca + abs, abs >= 0 and = 0 for real indices, optical theorem with the forward amplitude of calc_scat_matrix); a TLC trace spec asserts every relation with tolerances from spec/Tolerances.tla.",
     note="Quick tier: one class per (index, size, layering) = 105 classes + 8 clusters; thorough: all 1260 classes. Open finding: layered spheres with real indices at x ~ 1e-3 (precision loss).",
     ref="5 C03")
 
@@ -91,14 +91,14 @@ CHECKS["C06"] = dict(
     ref="5 C06")
 
 CHECKS["C08"] = dict(
-    technique="TLA+ spec LensRoutes.tla (physical classes x routes that must agree) model-checked by TLC; all routes executed on sampled classes and the recorded defects validated by LensRoutesTrace.tla",
+    technique="TLA+ spec LensRoutes.tla (physical classes x routes that must agree; scan mode: request sequences on one sphere) model-checked by TLC; all routes executed on sampled classes and the recorded defects validated by LensRoutesTrace.tla; scan sequences executed in one interpreter against fresh-interpreter answers",
     text="TLC enumerates 6000 physical classes (4 relative indices 1.05-2.5, 5 size parameters 0.1-50, k z in {-150,-20,5,60,300}, 4 lens angles 0.1-1.4, 5 polarisation indices of Z_24, radial range inside / up to / beyond the large-rho cutoff) x 14 routes. For each sampled class the harness computes: MieLens with interpolation check/on/off, other window size and degree, AberratedMieLens with scalar 0 and zero lists of length 1-4, the default against a refined radial quadrature, and Lens(Mie) on a three-rung quadrature ladder with unequal theta/phi orders sized from the pupil phase variation; a TLC trace spec asserts agreement of all analytic routes, that the ladder is Cauchy and that its last rung equals the refined analytic theory (measured <= 2e-7 everywhere).",
     note="numexpr is absent: the acceleration clause is not exercised (listed in evidence.not_covered). Quick tier: 20 classes covering every factor value; thorough: 400. Open finding: default MieLens quadrature unconverged at large k*rho*sin(angle).",
     ref="5 C08")
 
 CHECKS["C09"] = dict(
     technique="TLA+ spec TheoryChoice.tla (default-theory rule as a total decision function with the 30-radius boundary decided in exact integer geometry) model-checked by TLC; every enumerated scatterer replayed against determine_default_theory_for and calc_holo(theory='auto'); permutation / rotation / one-sphere relations of the multi-sphere solver replayed",
-    text="TLC enumerates 147 abstract scatterers: single and layered sphere, clusters of 1-3 spheres with layered or unplaced members and separations exactly at 30 largest radii ((30,0,0), (18,24,0), (0,18,24)), just inside (29) and just beyond (31, (18,25,0)), far (60), spheroid, cylinder, ellipsoid, capsule, CSG, and non-scatterers; the specified outcome (Mie / Multisphere / Tmatrix / DDA->DependencyMissing / AutoTheoryFailed / InvalidScatterer) must be what determine_default_theory_for gives, and calc_holo(theory='auto') must be byte-identical to naming that theory (and distinguishable from the other candidate). All orders of clusters of 2-4(5) spheres (equal sizes, unequal pairs, unequal >= 3) for both interaction solvers, rotation covariance about the optical axis, and the one-sphere cluster vs Mie are replayed.",
+    text="TLC enumerates 147 abstract scatterers: single and layered sphere, clusters of 1-3 spheres with layered or unplaced members and separations exactly at 30 largest radii ((30,0,0), (18,24,0), (0,18,24)), just inside (29) and just beyond (31, (18,25,0)), far (60), spheroid, cylinder, ellipsoid, capsule, CSG, and non-scatterers; the specified outcome (Mie / Multisphere / Tmatrix / DDA->DependencyMissing / AutoTheoryFailed / InvalidScatterer) must be what determine_default_theory_for gives, and calc_holo(theory='auto') must be byte-identical to naming that theory (and distinguishable from the other candidate). All orders of clusters of 2-4(5) spheres (equal sizes, unequal pairs, unequal >= 3) for both interaction solvers, rotation covariance about the optical axis of fields and of the four cross-section numbers (polarisations along and oblique to the axes), and the one-sphere cluster vs Mie with and without the radial field component are replayed.",
     note="Open finding: Multisphere is order dependent for >= 3 spheres of unequal size. adda absent: the DDA outcome is DependencyMissing as documented.",
     ref="5 C09")
 
@@ -109,7 +109,7 @@ CHECKS["C01"] = dict(
     ref="5 C01")
 
 CHECKS["C16"] = dict(
-    technique="TLA+ spec ImageIO.tla (abstract images and the I/O / metadata operations, state merging on cycles and on file multisets) model-checked by TLC; sampled behaviours replayed on real files",
+    technique="TLA+ spec ImageIO.tla (abstract images incl. zero-valued metadata and colour channel layouts; HDF5 cycles, TIFF and colour TIFF export, metadata updates, averaging, raster loading; state merging on cycles and on file multisets) model-checked by TLC; sampled behaviours replayed on real files",
     text="TLC enumerates 8320 abstract images (5 shapes incl. 1x1 and 1x6, 4 dtypes, 1-3 channels, named or not, each of the four metadata keys None / scalar / per-channel dictionary / per-channel labelled array) with up to three HDF5 save-load cycles (identity), single-channel images through TIFF at the documented depths (values within half a quantisation step computed from the usable bits; metadata, spacing, name kept), metadata updates over all 15 key subsets (only named keys change, polarisation normalised, original untouched, new object), all push orders of file multisets of size 2-4 for load_average (exact mean, relative noise, coordinates, order independence; cropping to a reference image with anisotropic pixels), and raster loading with anisotropic spacing and channel selection (pixel (i,j) at (i s_x, j s_y), channel labels). Per-channel metadata is checked by label against what was given.",
     note="Quick tier replays a factor-covering sample (about 190 images x 3 cycles, 120 TIFF, 250 updates, a quarter of the 4-file orders). TIFF: 1xN images have no spacing to store and depth 32 is undocumented: both outside the model.",
     ref="5 C16")
@@ -121,8 +121,8 @@ CHECKS["C15"] = dict(
     ref="5 C15")
 
 CHECKS["C13"] = dict(
-    technique="TLA+ spec FitSession.tla (fit / cached-attribute reads / save / load / fit again in every interleaving) model-checked by TLC; the whole dumped graph walked on real objects; per-fit and per-reload observations validated by FitSessionTrace.tla",
-    text="TLC enumerates 16 configurations (NmpfitStrategy / LeastSquaresScipyStrategy x full image / random pixel subset x start at the generating parameters / 0.5-2% away x Mie / MieLens with a fitted lens angle) and every interleaving of a fit, reads of the three lazily cached result attributes (each changes what is serialised), save, load and a second fit with the same objects, to depth 4-5. Every edge is executed on real objects (real fits of a single sphere with x, y, z, radius and scaling free on a 16x16 detector, real HDF5 files). Recorded per fit: parameter names are the model's, fitted = generating parameters (1e-6), misfit not worse than at the guess, parameters within bounds, result.hologram = model.forward at the reported parameters, max_lnprob = lnposterior, model / data / strategy unchanged (serialised text and fingerprints), no per-fit references left on the strategy, second fit identical; per reload: parameters, names, model, strategy, data, hologram and log-probability equal whatever had been cached before saving. A TLC trace spec asserts all clauses.",
+    technique="TLA+ specs FitSession.tla (fit / cached-attribute reads / save / load / fit again in every interleaving) and FitFrontEnd.tla (hp.fit requests: scatterer or model, parameter names, strategy forms) model-checked by TLC; the dumped graphs walked on real objects; per-fit, per-reload and front-end observations validated by FitSessionTrace.tla",
+    text="TLC enumerates 64 configurations (NmpfitStrategy / LeastSquaresScipyStrategy x full image / random pixel subset x start at the generating parameters / 0.5-2% away / with one guess clipped onto the lower / upper bound of its prior x Mie / MieLens with a fitted lens angle x image axes starting at 0 / offset as for a region cut out of a larger image) and every interleaving of a fit, reads of the three lazily cached result attributes (each changes what is serialised), save, load and a second fit with the same objects, to depth 4-5. Every edge is executed on real objects (real fits of a single sphere with x, y, z, radius and scaling free on a 16x16 detector, real HDF5 files). Recorded per fit: parameter names are the model's, fitted = generating parameters (1e-6), misfit not worse than at the guess, parameters within bounds, result.hologram = model.forward at the reported parameters, max_lnprob = lnposterior, model / data / strategy unchanged (serialised text and fingerprints), no per-fit references left on the strategy, second fit identical; per reload: parameters, names, model, strategy, data, hologram and log-probability equal whatever had been cached before saving. A TLC trace spec asserts all clauses.",
     note="Quick: 8 configurations (alternating with the seed), thorough: all 16 plus 120 further generating parameter sets. Noise-free data; emcee/CMA strategies absent.",
     ref="5 C13")
 
